@@ -1051,6 +1051,19 @@ func (e *SpecEnv) call(n *SCall, hint types.Type) Val {
 			r = fmt.Sprintf("(sbase %s)", v.S)
 		}
 		return Val{T: types.Typ[types.Bool], S: fmt.Sprintf("(and (> %s 0) (>= (born %s) %s))", r, r, c.now(e.pre))}
+	case "argwords": // number of 8-byte words of a type / of the parameter frame of a func type
+		t := e.typeFromExpr(n.Args[0])
+		return e.numLit(big.NewInt(int64(len(c.ptrBits(t)))), hint)
+	case "ptrword": // does word i of the type (parameter frame) hold a pointer?
+		t := e.typeFromExpr(n.Args[0])
+		i := e.eval(n.Args[1], I)
+		return Val{T: types.Typ[types.Bool], S: c.ptrWordTerm(c.ptrBits(t), i.S, i.T)}
+	case "initval": // initial value of a package-level variable with a constant composite-literal initializer
+		id, ok := n.Args[0].(*SIdent)
+		if !ok {
+			sfail("initval takes a package-level variable name")
+		}
+		return e.initVal(id.Name)
 	case "sizeof": // unsafe.Sizeof of a type under the gc/amd64 layout
 		t := e.typeFromExpr(n.Args[0])
 		return e.numLit(big.NewInt(c.eng.sizes.Sizeof(t)), hint)
